@@ -139,6 +139,12 @@ TWINS = [
     ('slerp-returns-raw-endpoint', 'C15', 'base/quaternions.py', '    q0 = base.getvector(q0, 4)\n    q1 = base.getvector(q1, 4)\n\n    if s == 0:\n        return q0\n    elif s == 1:\n        return q1\n', '    if s == 0:\n        return q0\n    elif s == 1:\n        return q1\n    q0 = base.getvector(q0, 4)\n    q1 = base.getvector(q1, 4)\n', 'R10a', 'slerp'),
     ('se3-so3-transports-unchecked-param', 'C07', 'pose3d.py', "        elif base.isrot(R, check=check):\n            pass\n        else:\n            raise ValueError('expecting SO3 or rotation matrix')\n        return cls(base.r2t(R))", "        elif check and not base.isrot(R):\n            raise ValueError('expecting SO3 or rotation matrix')\n        return cls(base.r2t(R), check=False)", 'R15c', 'SE3.SO3'),
     ('udq-ctor-negates-real-only', 'C06', 'DualQuaternion.py', '        elif real is not None and dual is not None:\n            self.real = real  # quaternion, real part', '        elif real is not None and dual is not None:\n            if real.s < 0:\n                real = -real\n            self.real = real  # quaternion, real part', 'R22', 'UnitDualQuaternion.__init__'),
+    ('trlog2-general-logm', 'C03', 'base/transforms2d.py', '        theta = math.atan2(T[1, 0], T[0, 0])\n        if twist:\n            return np.array([theta])\n        else:\n            return base.skew(theta)', '        if twist:\n            return base.vex(scipy.linalg.logm(T))\n        else:\n            return scipy.linalg.logm(T)', 'R25', 'trlog2'),
+    ('trlog2-angle-entry', 'C03', 'base/transforms2d.py', '            theta = math.atan2(T[1, 0], T[0, 0])\n            t = T[:2, 2]', '            theta = math.atan2(T[0, 1], T[0, 0])\n            t = T[:2, 2]', 'R25', 'trlog2'),
+    ('trlog2-atan', 'C03', 'base/transforms2d.py', '            theta = math.atan2(T[1, 0], T[0, 0])\n            t = T[:2, 2]', '            theta = math.atan(T[1, 0] / T[0, 0])\n            t = T[:2, 2]', 'R25', 'trlog2'),
+    ('trlog2-vinv-transposed', 'C03', 'base/transforms2d.py', 'v = np.array([[A, B], [-B, A]]) @ t / (A * A + B * B)', 'v = np.array([[A, -B], [B, A]]) @ t / (A * A + B * B)', 'R25', 'trlog2'),
+    ('trlog2-vinv-undivided', 'C03', 'base/transforms2d.py', 'v = np.array([[A, B], [-B, A]]) @ t / (A * A + B * B)', 'v = np.array([[A, B], [-B, A]]) @ t', 'R25', 'trlog2'),
+    ('trlog2-theta-unguarded', 'C03', 'base/transforms2d.py', '            if theta == 0:\n                v = t\n            else:\n                A = math.sin(theta) / theta\n                B = 2 * math.sin(theta / 2) ** 2 / theta\n                v = np.array([[A, B], [-B, A]]) @ t / (A * A + B * B)', '            A = math.sin(theta) / theta\n            B = 2 * math.sin(theta / 2) ** 2 / theta\n            v = np.array([[A, B], [-B, A]]) @ t / (A * A + B * B)', 'R25', 'trlog2'),
     ('cross-entry', 'C13', 'base/vectors.py', '        u[2] * v[0] - u[0] * v[2],', '        u[0] * v[2] - u[2] * v[0],', 'R16', 'cross'),
     ('tr2jac-notranspose', 'C13', 'base/transforms3d.py', '        return np.block([[R.T, Z], [Z, R.T]])', '        return np.block([[R, Z], [Z, R]])', 'R16', 'tr2jac'),
     # ---- C14
